@@ -142,6 +142,28 @@ type headers struct {
 	used    bool
 	group   []*parLookup      // lookups of the group in flight, in order of their start
 	storm   map[string]*SItem // lookups of the storm in flight, by root (fallback, see runStorm)
+	// Like a real node the provider answers for the block NAMED IN THE REQUEST (opts.Block), which
+	// the client may read at any moment between the call and the answer (the multi client reads it
+	// again for every node it fails over to): chain maps the root strings of the history's chain to
+	// their slots, expect is the root string a sequential lookup is expected to ask for.
+	chain  map[string]uint64
+	expect string
+}
+
+// What the node answers when the request names block `asked` while the script is about `root`
+// (scripted answer `fetch`): the scripted answer if the request names the scripted root; otherwise
+// the header of the block that was asked for (404 if the chain has no such block).
+func (h *headers) answerFor(asked string, root uint64, fetch uint64) (*api.Response[*apiv1.BeaconBlockHeader], error) {
+	if asked == rootOf(root).String() {
+		return headerResponse(fetch), nil
+	}
+	h.mu.Lock()
+	slot, ok := h.chain[asked]
+	h.mu.Unlock()
+	if !ok {
+		return nil, failure("api404")
+	}
+	return headerResponse(slot), nil
 }
 
 func headerResponse(slot uint64) *api.Response[*apiv1.BeaconBlockHeader] {
@@ -165,7 +187,7 @@ func (h *headers) BeaconBlockHeader(ctx context.Context, opts *api.BeaconBlockHe
 		if it.Fetch == nil {
 			return nil, failure(it.ErrKind)
 		}
-		return headerResponse(*it.Fetch), nil
+		return h.answerFor(opts.Block, it.Root, *it.Fetch)
 	}
 	var pl *parLookup
 	if h.group != nil {
@@ -182,10 +204,20 @@ func (h *headers) BeaconBlockHeader(ctx context.Context, opts *api.BeaconBlockHe
 	}
 	if pl == nil {
 		h.used = true
-		next, kind := h.next, h.errKind
+		next, kind, expect := h.next, h.errKind, h.expect
 		h.mu.Unlock()
 		if next == nil {
 			return nil, failure(kind)
+		}
+		if expect != "" && opts.Block != expect {
+			// the request names another block than the one looked up
+			h.mu.Lock()
+			slot, ok := h.chain[opts.Block]
+			h.mu.Unlock()
+			if !ok {
+				return nil, failure("api404")
+			}
+			return headerResponse(slot), nil
 		}
 		return headerResponse(*next), nil
 	}
@@ -206,7 +238,9 @@ func (h *headers) BeaconBlockHeader(ctx context.Context, opts *api.BeaconBlockHe
 	if pl.Fetch == nil {
 		return nil, failure(pl.ErrKind)
 	}
-	return headerResponse(*pl.Fetch), nil
+	// the request is read (again) when the answer is made: a request struct shared between callers
+	// names by now the block of whoever wrote it last
+	return h.answerFor(opts.Block, pl.Root, *pl.Fetch)
 }
 
 // ---------------------------------------------------------------------------------------------
@@ -338,7 +372,10 @@ func runHistory(t *testing.T, h History, st *stormStats) (outs []string, final [
 	ct := mocks.NewChainTime(h.SPE)
 	ev := mocks.NewEventsProvider()
 	sched := mocks.NewRecScheduler()
-	hp := &headers{}
+	hp := &headers{chain: map[string]uint64{}}
+	for r, sl := range h.Chain {
+		hp.chain[rootOf(r).String()] = sl
+	}
 	bp := &blocks{}
 	if h.StartHead != nil {
 		bp.head = &blockSpec{slot: h.StartHead.Slot, parent: h.StartHead.Parent, version: h.StartHead.Version}
@@ -393,7 +430,7 @@ func runHistory(t *testing.T, h History, st *stormStats) (outs []string, final [
 			e.head(&apiv1.Event{Topic: "head", Data: &apiv1.HeadEvent{Slot: phase0.Slot(op.Slot), Block: rootOf(op.Root)}})
 			return "ONone"
 		case "lookup":
-			hp.next, hp.errKind, hp.used = op.Fetch, op.ErrKind, false
+			hp.next, hp.errKind, hp.used, hp.expect = op.Fetch, op.ErrKind, false, rootOf(op.Root).String()
 			lctx := ctx
 			if op.CallerCtx == "cancelled" {
 				c, cancel := context.WithCancel(ctx)
@@ -448,7 +485,7 @@ func runHistory(t *testing.T, h History, st *stormStats) (outs []string, final [
 		roots = append(roots, r)
 	}
 	sort.Slice(roots, func(i, j int) bool { return roots[i] < roots[j] })
-	hp.next = nil
+	hp.next, hp.expect = nil, ""
 	for _, r := range roots {
 		if slot, err := svc.BlockRootToSlot(ctx, rootOf(r)); err == nil {
 			final = append(final, [2]uint64{r, uint64(slot)})
@@ -593,6 +630,9 @@ func TestC18(t *testing.T) {
 		}
 		if h.StartHead != nil {
 			col.Count("starthead")
+		}
+		if _, ok := h.Chain[0]; ok {
+			col.Count("roots:with-the-all-zero-root")
 		}
 		if isStormHistory(h) {
 			col.Count("storm-history")
